@@ -55,6 +55,8 @@ def line_shapes() -> List[Tuple[str, Callable[[], SymStr], Dict[str, Any]]]:
     shapes.append(("insn-data16", lambda: head() + "data16 " + v("mn") + v("sp") + v("ops") + v("rest"),
                    {"kind": "insn", "mn": "mn", "ops": "ops"}))
     shapes.append(("insn-data16-noops", lambda: head() + "data16 " + v("mn") + v("trail"), {"kind": "insn", "mn": "mn", "ops": None}))
+    # a 0x66 byte that starts no decodable instruction is printed as the one-token instruction "data16"
+    shapes.append(("insn-data16-lone", lambda: head() + "data16", {"kind": "insn", "mn": "lit:data16", "ops": None}))
     shapes.append(("insn-prefix", lambda: head() + "rep " + v("mn") + v("sp") + v("ops") + v("rest"),
                    {"kind": "insn", "mn": "lit:rep", "ops": "mn"}))
     shapes.append(("cont", lambda: v("pad") + v("addr") + ":\t" + v("cbytes"), {"kind": "empty"}))
